@@ -27,6 +27,11 @@ def f_not(f):
         return f[1]
     if f[0] == "atom" and f[1] == "cmp":
         return ("atom", "cmp", _NEG_CMP[f[2]], f[3], f[4])
+    # negation normal form: !(a | b) = !a & !b ; !(a & b) = !a | !b
+    if f[0] == "or":
+        return f_and([f_not(x) for x in f[1]])
+    if f[0] == "and":
+        return f_or([f_not(x) for x in f[1]])
     return ("not", f)
 
 
